@@ -365,20 +365,38 @@ def is_self_call(call, names):
     return None
 
 
-def call_args_sig(call, drop_self):
+def call_args_sig(call, drop_self, rkr=None):
+    """array arguments of a delegation, each described by the array parameters (roles X / Y) it is computed from,
+    so that renaming or introducing a local does not change the signature"""
     out = []
     for i, a in enumerate(call.args):
         if drop_self and i == 0 and isinstance(a, ast.Name) and a.id == "self":
             continue
         if isinstance(a, ast.Starred):
             continue
-        out.append(pf.src(a))
+        out.append(a)
     for kw in call.keywords:
         if kw.arg is None or kw.arg in SKIP_KW:
             continue
-        out.append(pf.src(kw.value))
-    # drop trailing positional flags passed through (eval_gradient, get_sub_kernels)
-    return tuple(a for a in out if a not in SKIP_KW and a not in ("True", "False"))
+        out.append(kw.value)
+    sig = []
+    for a in out:
+        txt = pf.src(a)
+        if txt in SKIP_KW or txt in ("True", "False"):
+            continue
+        if rkr is not None:
+            roots = rkr.roots(a)
+            if isinstance(a, ast.Constant) and a.value is None:
+                sig.append("None")
+            elif roots:
+                sig.append("+".join(sorted(roots)))
+            elif isinstance(a, ast.Name):
+                continue  # a flag or option handed through
+            else:
+                sig.append(txt)
+        else:
+            sig.append(txt)
+    return tuple(sig)
 
 
 def primitives(uni, mod, cls, fn, exprs, alias, pair_names):
@@ -414,15 +432,15 @@ def primitives(uni, mod, cls, fn, exprs, alias, pair_names):
                     continue
                 who = is_self_call(n, pair_names)
                 if who:
-                    add(("delegate", who, call_args_sig(n, who == "base")), n)
+                    add(("delegate", who, call_args_sig(n, who == "base", rkr)), n)
                     continue
                 # child kernels / other objects: self.<attr>(...) and self.<attr>.<pair>(...)
                 f = n.func
                 if pf.is_self_attr(f) and f.attr in ctor:
-                    add(("delegate", "self." + f.attr, call_args_sig(n, False)), n)
+                    add(("delegate", "self." + f.attr, call_args_sig(n, False, rkr)), n)
                     continue
                 if isinstance(f, ast.Attribute) and f.attr in pair_names and pf.is_self_attr(f.value):
-                    add(("delegate", "self." + f.value.attr, call_args_sig(n, False)), n)
+                    add(("delegate", "self." + f.value.attr, call_args_sig(n, False, rkr)), n)
                     continue
                 if isinstance(f, ast.Attribute) and isinstance(f.value, ast.Name) and f.value.id == "self" \
                         and n.args and rkr.roots(n.args[0]):
@@ -715,7 +733,16 @@ def rule_pol_kernel(chk, prog):
     a, d = forms["get_k"], forms["get_k_and_deriv"]
     inst = "DFTKernel: get_k and get_k_and_deriv evaluate the same four blocks"
     def used_blocks(form):
-        return {form[3][f] for t in form[2][1] for f in t}
+        # rename-insensitive: (sample spin, control spin) and the control operand (an attribute); the sample operand
+        # is a local whose name carries no meaning (each method uses a single one, checked above)
+        out = set()
+        for t in form[2][1]:
+            for f in t:
+                a0, a1 = form[3][f][:2]
+                r1 = a1.rsplit("[", 1)[0]
+                out.add((a0.rsplit("[", 1)[-1].rstrip("]"), a1.rsplit("[", 1)[-1].rstrip("]"),
+                         r1 if r1.startswith("self.") else "<local>"))
+        return out
     if used_blocks(a) == used_blocks(d):
         chk.ok("pol-kernel", inst)
     else:
